@@ -314,3 +314,39 @@ pub proof fn lemma_of_reorder(s1: Seq<SolverResult>, s2: Seq<SolverResult>, f: S
     lemma_reorder_same_values(s1, s2, f, SolverResult::True);
     lemma_reorder_same_values(s1, s2, f, SolverResult::False);
 }
+
+// ---- scanning an or3 from the left while no operand has been true: the running result after n operands
+pub open spec fn or_scan(s: Seq<SolverResult>, n: int) -> SolverResult
+    decreases n,
+{
+    if n <= 0 { SolverResult::Missing } else if s[n - 1] == SolverResult::False { SolverResult::False } else { or_scan(s, n - 1) }
+}
+
+pub proof fn lemma_or_scan(s: Seq<SolverResult>, n: int)
+    requires 0 <= n <= s.len(), forall|k: int| 0 <= k < n ==> s[k] != SolverResult::True,
+    ensures
+        or_scan(s, n) != SolverResult::True,
+        (or_scan(s, n) == SolverResult::False) <==> (exists|k: int| 0 <= k < n && s[k] == SolverResult::False),
+    decreases n,
+{
+    if n > 0 {
+        lemma_or_scan(s, n - 1);
+        if s[n - 1] != SolverResult::False && or_scan(s, n) == SolverResult::False {
+            let k = choose|k: int| 0 <= k < n - 1 && s[k] == SolverResult::False;
+            assert(s[k] == SolverResult::False);
+        }
+    }
+}
+
+pub proof fn lemma_or_scan_all(s: Seq<SolverResult>)
+    requires forall|k: int| 0 <= k < s.len() ==> s[k] != SolverResult::True,
+    ensures or3(s) == or_scan(s, s.len() as int),
+{
+    lemma_or_scan(s, s.len() as int);
+}
+
+pub proof fn lemma_or3_true(s: Seq<SolverResult>, k: int)
+    requires 0 <= k < s.len(), s[k] == SolverResult::True,
+    ensures or3(s) == SolverResult::True,
+{
+}
